@@ -62,6 +62,56 @@ func ruleR121(c *Ctx) {
 		}
 		return true
 	})
+	// the close may be the business of the goroutine that calls run: go func() { t.run(tokens); close(tokens) }()
+	if !okClose && len(closes) == 0 && chanParam != nil {
+		runObj, _ := info.Defs[run.Name].(*types.Func)
+		closedByCaller := false
+		for _, f := range root.Syntax {
+			ast.Inspect(f, func(n ast.Node) bool {
+				gs, ok := n.(*ast.GoStmt)
+				if !ok {
+					return true
+				}
+				lit, ok := ast.Unparen(gs.Call.Fun).(*ast.FuncLit)
+				if !ok {
+					return true
+				}
+				// the statements of the literal: ...; run(ch); close(ch) with nothing that can leave in between
+				for i, st := range lit.Body.List {
+					es, ok := st.(*ast.ExprStmt)
+					if !ok {
+						continue
+					}
+					call, ok := ast.Unparen(es.X).(*ast.CallExpr)
+					if !ok || runObj == nil || Callee(info, call) != runObj.Origin() || len(call.Args) != 1 || i+1 >= len(lit.Body.List) {
+						continue
+					}
+					// directly behind it (or deferred in front of it): close of the same channel
+					chText := nodeStr(c.Fset, call.Args[0])
+					isCloseOf := func(x ast.Node) bool {
+						cc, ok := x.(*ast.CallExpr)
+						if !ok || len(cc.Args) != 1 {
+							return false
+						}
+						id, ok := ast.Unparen(cc.Fun).(*ast.Ident)
+						return ok && id.Name == "close" && nodeStr(c.Fset, cc.Args[0]) == chText
+					}
+					if nes, ok := lit.Body.List[i+1].(*ast.ExprStmt); ok && isCloseOf(ast.Unparen(nes.X)) {
+						closedByCaller = true
+					}
+					for _, before := range lit.Body.List[:i] {
+						if ds, ok := before.(*ast.DeferStmt); ok && isCloseOf(ds.Call) {
+							closedByCaller = true
+						}
+					}
+				}
+				return true
+			})
+		}
+		if closedByCaller {
+			okClose = true
+		}
+	}
 	if chanParam == nil || nRet == 0 {
 		c.Undecided(key, run.Pos(), "shape of run not recognised")
 	} else {
